@@ -1,4 +1,4 @@
 SPECIFICATION Spec
 CONSTANTS MaxNodes = 2 MaxPert = 2 Rich = TRUE
-INVARIANTS TypeOK TruthLocal TruthEq TruthSym RefOK MatchLaws
+INVARIANTS TypeOK TruthLocal TruthEq TruthSym Reflexive RefOK MatchLaws
 CHECK_DEADLOCK FALSE
